@@ -22,7 +22,14 @@ func verifDir() string {
 	return "/verif"
 }
 
-func keysPath() string { return filepath.Join(verifDir(), ".build", "keys.json") }
+func buildDir() string {
+	if d := os.Getenv("VERIF_BUILD_DIR"); d != "" {
+		return d
+	}
+	return filepath.Join(verifDir(), ".build")
+}
+
+func keysPath() string { return filepath.Join(buildDir(), "keys.json") }
 
 func main() {
 	if len(os.Args) < 2 {
